@@ -15,4 +15,4 @@ def supported(L):
 
 
 def streams(ctx):
-    return class_streams(ctx, CLASS, supported, (2, 4), OUTSIDE, 6, 3302)
+    return class_streams(ctx, CLASS, supported, (2, 4), OUTSIDE, 6, 3302, rank_family=True)
